@@ -354,6 +354,8 @@ func (vc *VC) evalBuiltin(st *State, name string, call *ast.CallExpr, preArgs []
 			st.heap["Chc"] = Term{S: store(hc.S, r.S, "false"), Sort: "(Array Int Bool)"}
 			hk := vc.heapGet(st, "Chk", "(Array Int Int)", nil)
 			st.heap["Chk"] = Term{S: store(hk.S, r.S, capT), Sort: "(Array Int Int)"}
+			hh := vc.heapGet(st, "Chh", "(Array Int Int)", nil)
+			st.heap["Chh"] = Term{S: store(hh.S, r.S, "0"), Sort: "(Array Int Int)"}
 			return []Term{r}
 		}
 	case "append":
@@ -598,6 +600,7 @@ func (vc *VC) callByContract(st *State, spec *FuncSpec, callee *types.Func, sig 
 
 // havocAll forgets every mutable heap (callee without a frame).
 func (vc *VC) havocAll(st *State) {
+	st.havocTok = vc.u.Fresh("hv")
 	na := vc.freshSort("alloc", "Int")
 	st.assume("(>= " + na.S + " " + st.alloc + ")")
 	st.alloc = na.S
@@ -785,8 +788,10 @@ func (vc *VC) addObjectTargets(env *SpecEnv, x Term, e ast.Expr, add func(h, ref
 		ci := vc.chanInfo(x.T)
 		vc.chanBuf(env.st, ci, x.S)
 		vc.chanClosed(env.st, x.S)
+		vc.chanHead(env.st, x.S)
 		add(ci.bn, x.S)
 		add("Chc", x.S)
+		add("Chh", x.S)
 	default:
 		vc.specFail(e, "unsupported write target %s", exprString(e))
 	}
@@ -875,9 +880,139 @@ func (vc *VC) isLoggingHelper(fn *types.Func) bool {
 	return false
 }
 
+// ---------------------------------------------------------------------------------------
+// select: sequential channel model.
+//   * a channel is a history sequence chanbuf(ch) plus a read position chanhead(ch); receiving takes
+//     element chanhead and advances it; the not-yet-received part of an input channel is the (arbitrary,
+//     universally quantified) future input; sending appends to the sequence;
+//   * a receive case is enabled when an element is available (value, ok=true) or the channel is closed and
+//     drained (zero, ok=false); <-ctx.Done(), timers and send cases are enabled nondeterministically;
+//     default is always allowed (over-approximation);
+//   * blocking, fairness and other goroutines are not modelled (partial correctness of the sequential loop).
+
+func (vc *VC) chanHead(st *State, ref string) string {
+	h := vc.heapGet(st, "Chh", "(Array Int Int)", nil)
+	return sel(h.S, ref)
+}
+
+type recvOutcome struct {
+	st *State
+	v  Term
+	ok string
+}
+
+func (vc *VC) isOpaqueRecvSource(e ast.Expr) bool {
+	// <-ctx.Done(), <-time.After(d), <-ticker.C
+	switch x := ast.Unparen(e).(type) {
+	case *ast.CallExpr:
+		if se, ok := x.Fun.(*ast.SelectorExpr); ok {
+			if se.Sel.Name == "Done" || se.Sel.Name == "After" {
+				return true
+			}
+		}
+	}
+	t := vc.typeOf(e)
+	if ct, ok := under(t).(*types.Chan); ok {
+		if n, ok := ct.Elem().(*types.Named); ok && n.Obj().Pkg() != nil && n.Obj().Pkg().Path() == "time" && n.Obj().Name() == "Time" {
+			return true
+		}
+		if st, ok := under(ct.Elem()).(*types.Struct); ok && st.NumFields() == 0 {
+			return true
+		}
+	}
+	return false
+}
+
+func (vc *VC) chanRecv(st *State, chE ast.Expr) []recvOutcome {
+	if vc.isOpaqueRecvSource(chE) {
+		t := vc.typeOf(chE)
+		et := vc.ts.apply(under(t).(*types.Chan).Elem())
+		s := st.clone()
+		// operands are evaluated for their safety obligations only when they are plain expressions
+		if ce, isCall := ast.Unparen(chE).(*ast.CallExpr); !isCall {
+			vc.evalExpr(s, chE)
+		} else if se, ok := ce.Fun.(*ast.SelectorExpr); ok && se.Sel.Name == "Done" {
+			// the Done case fires only on a finished context
+			cx := vc.evalExprQuiet(s, se.X)
+			vc.u.declFun("abs.ctxdone", "(Iface) Bool")
+			s.assume("(abs.ctxdone " + cx.S + ")")
+		}
+		return []recvOutcome{{st: s, v: vc.u.Zero(et), ok: "true"}}
+	}
+	s1 := st.clone()
+	ch := vc.evalExpr(s1, chE)
+	ci := vc.chanInfo(ch.T)
+	buf := vc.chanBuf(s1, ci, ch.S)
+	head := vc.chanHead(s1, ch.S)
+	ln := vc.sliceLen(buf)
+	// outcome 1: an element is available
+	s1.assume(and(not(eq(ch.S, "0")), "(<= 0 "+head+")", "(< "+head+" "+ln+")"))
+	v := vc.mk(sel(vc.sliceArr(buf), head), ci.E)
+	s1.assume(vc.u.WF(v.S, ci.E, s1.alloc))
+	hh := vc.heapGet(s1, "Chh", "(Array Int Int)", nil)
+	s1.heap["Chh"] = Term{S: store(hh.S, ch.S, "(+ "+head+" 1)"), Sort: "(Array Int Int)"}
+	// outcome 2: closed and drained
+	s2 := st.clone()
+	ch2 := vc.evalExprQuiet(s2, chE)
+	buf2 := vc.chanBuf(s2, ci, ch2.S)
+	s2.assume(and(not(eq(ch2.S, "0")), "(>= "+vc.chanHead(s2, ch2.S)+" "+vc.sliceLen(buf2)+")", vc.chanClosed(s2, ch2.S)))
+	return []recvOutcome{{st: s1, v: v, ok: "true"}, {st: s2, v: vc.u.Zero(ci.E), ok: "false"}}
+}
+
+// chanLogSend: a send that was accepted (by a receiver or a buffer slot) appends to the history.
+func (vc *VC) chanLogSend(st *State, ch Term, v Term) {
+	ci := vc.chanInfo(ch.T)
+	buf := vc.chanBuf(st, ci, ch.S)
+	ln := vc.sliceLen(buf)
+	nb := vc.mkSlice(buf.T, store(vc.sliceArr(buf), ln, vc.coerce(v, ci.E).S), "(+ "+ln+" 1)", "true")
+	h := vc.heapGet(st, ci.bn, ci.bsort, buf.T)
+	st.heap[ci.bn] = Term{S: store(h.S, ch.S, nb.S), Sort: ci.bsort}
+}
+
 func (vc *VC) execSelectModel(st *State, x *ast.SelectStmt) []*State {
-	vc.fail(x, "select statement (channel model not enabled for this function)")
-	return nil
+	tg := &target{}
+	vc.targets = append(vc.targets, tg)
+	var outs []*State
+	vc.note("assumed: sequential channel model for select (input channels hold an arbitrary future input sequence; blocking, fairness and other goroutines are not modelled)")
+	for _, c := range x.Body.List {
+		cc := c.(*ast.CommClause)
+		switch comm := cc.Comm.(type) {
+		case nil:
+			outs = append(outs, vc.execBlock([]*State{st.clone()}, cc.Body)...)
+		case *ast.SendStmt:
+			s := st.clone()
+			ch := vc.evalExpr(s, comm.Chan)
+			v := vc.evalExpr(s, comm.Value)
+			s.assume(not(eq(ch.S, "0")))
+			vc.chanLogSend(s, ch, v)
+			outs = append(outs, vc.execBlock([]*State{s}, cc.Body)...)
+		case *ast.ExprStmt:
+			ue, ok := ast.Unparen(comm.X).(*ast.UnaryExpr)
+			if !ok || ue.Op != token.ARROW {
+				vc.fail(comm, "unsupported select case")
+			}
+			for _, o := range vc.chanRecv(st, ue.X) {
+				outs = append(outs, vc.execBlock([]*State{o.st}, cc.Body)...)
+			}
+		case *ast.AssignStmt:
+			ue, ok := ast.Unparen(comm.Rhs[0]).(*ast.UnaryExpr)
+			if !ok || ue.Op != token.ARROW {
+				vc.fail(comm, "unsupported select case")
+			}
+			for _, o := range vc.chanRecv(st, ue.X) {
+				vc.assign(o.st, comm.Lhs[0], o.v)
+				if len(comm.Lhs) == 2 {
+					vc.assign(o.st, comm.Lhs[1], boolTerm(o.ok))
+				}
+				outs = append(outs, vc.execBlock([]*State{o.st}, cc.Body)...)
+			}
+		default:
+			vc.fail(cc, "unsupported select communication")
+		}
+	}
+	vc.targets = vc.targets[:len(vc.targets)-1]
+	outs = append(outs, tg.breaks...)
+	return outs
 }
 
 // lockOp models mu.Lock/Unlock/RLock/RUnlock where mu is a field `owner.mu` of a pointer-held struct.
